@@ -703,7 +703,9 @@ fn main() {
     // and get_peer_id_by_address must resolve the plain rendering to the peer.
     {
         use vh::netsim::*;
-        let far: Vec<&str> = vec!["198.51.100.7:9000", "198.51.100.8:65535", "198.51.100.9:1", "10.0.0.1:80", "[2001:db8:5::1]:9000", "[2001:db8:5::2]:65535", "[fd12:3456:789a:1::1]:9000", "[2001:db8:85a3::8a2e:370:7334]:443"];
+        let far: Vec<&str> = vec!["198.51.100.7:9000", "198.51.100.8:65535", "198.51.100.9:1", "10.0.0.1:80", "[2001:db8:5::1]:9000", "[2001:db8:5::2]:65535", "[fd12:3456:789a:1::1]:9000", "[2001:db8:85a3::8a2e:370:7334]:443",
+            // an IPv4-mapped IPv6 socket address (what a dual-stack listener reports for an IPv4 peer) is not the IPv4 address
+            "[::ffff:198.51.100.7]:9000", "[::ffff:10.0.0.1]:65535", "[2002:c633:6407::1]:9000", "[64:ff9b::c633:6407]:9000"];
         let dial_cases = std::sync::atomic::AtomicU64::new(0);
         par_for(far.len(), |fi| {
             let x: std::net::SocketAddr = far[fi].parse().unwrap();
@@ -734,7 +736,7 @@ fn main() {
                 let known_addrs = [a.addr, b.addr, x];
                 let reached = a.transport.is_peer_connected(&c.tid_hex).await;
                 let resolved = a.transport.get_peer_id_by_address(&x.to_string()).await;
-                let fam = if x.is_ipv4() { "ipv4" } else { "ipv6" };
+                let fam = if x.is_ipv4() { "ipv4" } else if matches!(x.ip(), std::net::IpAddr::V6(v6) if v6.to_ipv4_mapped().is_some()) { "ipv4-mapped-ipv6" } else { "ipv6" };
                 let port = if x.port() == 65535 { "65535" } else { "other" };
                 distinct.outcome(&("dial", fam, port, reached, told.len()));
                 let wit = || json!({"far_peer_address": far[fi], "address_strings_in_the_reply": told, "dialled": dials.iter().map(|(s, ok)| json!([s.to_string(), ok])).collect::<Vec<_>>(), "connected_to_far_peer": reached, "get_peer_id_by_address": resolved, "lookup_result": res.iter().map(|n| n.peer_id.chars().take(8).collect::<String>()).collect::<Vec<_>>()});
@@ -782,7 +784,7 @@ fn main() {
             "word variants never produced by the library (upper, title, mixed separators) may be rejected (counted as info); they must not decode to another address or panic. The hyphen form (NetworkAddress::four_words, identity::FourWordAddress) and the space form (re-exported encoder) must decode".into(),
             "a mutated string that is accepted must be a rendering of the returned address (std SocketAddr syntax, /ip4|ip6/<ip>/tcp/<port>[/...], '<ip:port> (...)', or the library's words of that address up to separators/case); a mutated string that std parses must be accepted; any other Err is fine".into(),
             "add_node's gate is observed differentially: the admission sequence for library-rendered strings must equal the one for plain ip:port strings of the same addresses (fresh engine each, LogOnly close-group validation, ids in distinct buckets); only renderings that reach add_node in production (NetworkAddress::to_string via register_new_peer/handle_peer_connected; bare IP per the code comment) are judged".into(),
-            "DhtNetworkManager::{multiaddr_from_address, dial_candidate}, connect_peer and get_peer_id_by_address are exercised through the in-memory network (A-B-C path, the far peer at 8 address classes); BootstrapManager dialling is not covered".into(),
+            "DhtNetworkManager::{multiaddr_from_address, dial_candidate}, connect_peer and get_peer_id_by_address are exercised through the in-memory network (A-B-C path, the far peer at 12 address classes incl. IPv4-mapped IPv6); BootstrapManager dialling is not covered".into(),
             "DESIGN's quick grid (full battery on all 7.6e5 grid addresses) was scaled to measured throughput: words + Display round trips on the whole grid, the full battery on the sub-grid stated in bounds".into(),
         ],
     );
